@@ -5,6 +5,7 @@ import (
 	"go/ast"
 	"go/token"
 	"go/types"
+	"strconv"
 	"strings"
 
 	"golang.org/x/tools/go/ssa"
@@ -79,6 +80,13 @@ func (g *FnGen) Generate() (err error) {
 	if g.C != nil {
 		for i, c := range g.C.Requires {
 			g.assumeClause("true", c.E, g.ctxEntry(), fmt.Sprintf("requires:%d", i))
+		}
+		// "calls X": a function-local flag per named callee, false on entry, set by every call of X
+		// (merged at joins like heap state, forgotten by loops that contain such a call)
+		for _, c := range g.C.MustCall {
+			key := mustCallKey(c)
+			g.D.heapKeySort(key, sortBool)
+			g.st[key] = "false"
 		}
 		for i, c := range g.C.Shape {
 			g.assumeClause("true", c.E, g.ctxEntry(), fmt.Sprintf("shape:%d", i))
@@ -862,6 +870,30 @@ func (g *FnGen) doMapUpdate(x *ssa.MapUpdate) {
 	}
 	hasArr := g.D.get(g.st, h)
 	had := sel(sel(hasArr, m.T), k.T)
+	// at-site assertions of the contract ("at call mapupdate#k assert ..."; #0 = every map update of
+	// the function), evaluated before the update with upd_map / upd_key / upd_value / upd_had bound
+	if g.C != nil && g.parent == nil {
+		ord := 0
+		if sn := g.siteNames[x]; strings.HasPrefix(sn, "mapupdate#") {
+			ord, _ = strconv.Atoi(strings.TrimPrefix(sn, "mapupdate#"))
+		}
+		for _, cs := range g.C.Calls {
+			if cs.Callee != "mapupdate" || (cs.K != 0 && cs.K != ord) {
+				continue
+			}
+			env := map[string]Val{"upd_map": m, "upd_key": k, "upd_value": v,
+				"upd_had": {T: g.def("upd_had", sortBool, had), S: sortBool, Go: types.Typ[types.Bool]}}
+			for k2, v2 := range g.env {
+				if _, dup := env[k2]; !dup {
+					env[k2] = v2
+				}
+			}
+			for i, a := range cs.Assert {
+				ctx := &EvalCtx{g: g, env: env, st: g.st, oldSt: g.entrySt, oldEnv: g.env, guard: g.curGuard}
+				g.obligeClause("assert", g.siteNames[x]+"/"+clauseLabel(a, i), g.curGuard, a, ctx, x.Pos())
+			}
+		}
+	}
 	lenArr := g.D.get(g.st, l)
 	g.st[l] = g.def("h", g.D.heapSorts[l], store(lenArr, m.T, ite(had, sel(lenArr, m.T), fmt.Sprintf("(bvadd %s (_ bv1 64))", sel(lenArr, m.T)))))
 	g.st[h] = g.def("h", g.D.heapSorts[h], store(hasArr, m.T, store(sel(hasArr, m.T), k.T, "true")))
@@ -1654,3 +1686,5 @@ func (g *FnGen) typeInvObjects() []Val {
 	}
 	return out
 }
+
+func mustCallKey(callee string) string { return "GV:$called:" + callee }
